@@ -38,12 +38,12 @@ import (
 func init() { props["C19"] = runC19 }
 
 type sockKind struct {
-	name   string
-	mk     func() (mangos.Socket, error)
-	mkP    func() mangos.ProtocolBase
-	hasCtx bool
+	name             string
+	mk               func() (mangos.Socket, error)
+	mkP              func() mangos.ProtocolBase
+	hasCtx           bool
 	canSend, canRecv bool
-	raw    bool
+	raw              bool
 }
 
 var allSocks = []sockKind{
